@@ -268,10 +268,11 @@ func genBasePath(r *rand.Rand) string {
 }
 
 func checkC12(e *core.Env) {
+	curEnv = e
 	e.SetRule("random registered sets (1..4 services with near-miss names, 1..3 unary and 0..2 stream methods) x generated method-name strings (registered, prefixes/suffixes/case variants, missing slash, empty, extra segments, swapped service/method, random) x {Invoke, NewStream}; in-process, httpgrpc.Server and HandleServices with random absolute base paths configured identically on both sides; oracle: per-method invocation counters, recover(), status code; distinct = (carrier, name class, call kind)")
 	e.Assume("over HTTP, names with empty or dot segments are excluded (URL path normalisation) and base paths avoid blank, %, { and } (net/http mux pattern language)")
 	// in-process
-	e.Cases("inproc", e.N(150, 1500), func(i int, r *rand.Rand) {
+	e.Cases("inproc", e.N(400, 10000), func(i int, r *rand.Rand) {
 		rs := genRegSet(r)
 		ch := &inprocgrpc.Channel{}
 		for _, d := range rs.descs {
@@ -299,7 +300,7 @@ func checkC12(e *core.Env) {
 		}
 	}
 	// HTTP with base paths
-	e.Cases("http", e.N(60, 600), func(i int, r *rand.Rand) {
+	e.Cases("http", e.N(150, 3000), func(i int, r *rand.Rand) {
 		rs := genRegSet(r)
 		base := genBasePath(r)
 		useMux := i%2 == 1
